@@ -822,3 +822,50 @@ Proof.
   repeat split; try lia; try reflexivity; try (cbv; intuition congruence);
     try (repeat (apply Forall_cons; [cbv; intuition congruence|]); apply Forall_nil).
 Qed.
+
+(* ================= the telecommand a report is built for ================= *)
+
+(* A telecommand built by PusTc(...) has an in-range header; its request ID packs to the first
+   four octets of the telecommand's own packed header. *)
+Theorem reqid_of_tc service subservice apid app seq source_id ack t :
+  tc_new service subservice apid app seq source_id ack = Ok t ->
+  sph_valid (tc_sph t) /\
+  sph_pack (tc_sph t) = Ok (sph_layout (tc_sph t)) /\
+  reqid_pack (reqid_from_sph (tc_sph t)) = Ok (firstn 4 (sph_layout (tc_sph t))).
+Proof.
+  unfold tc_new. set (dl := tc_get_data_length (len app) PUS_C_SEC_HEADER_LEN).
+  destruct (sph_new_accepts_iff PT_TC apid seq dl 1 SF_UNSEG 0) as [A B].
+  destruct (sph_new PT_TC apid seq dl 1 SF_UNSEG 0) as [h|e] eqn:E; cbn [bind]; [|discriminate].
+  intros [= <-]. cbn [tc_sph].
+  assert (R : 0 <= apid <= 2047 /\ 0 <= seq <= 16383 /\ 0 <= dl <= 65535).
+  { destruct (Z_le_dec 0 apid), (Z_le_dec apid 2047), (Z_le_dec 0 seq), (Z_le_dec seq 16383),
+      (Z_le_dec 0 dl), (Z_le_dec dl 65535); try lia; exfalso;
+      (assert (N : ~ (0 <= apid <= 2047 /\ 0 <= seq <= 16383 /\ 0 <= dl <= 65535)) by lia);
+      specialize (B N); congruence. }
+  specialize (A R). assert (Eh : h = {| ver := 0; ptype := PT_TC; shf := 1; apid := apid; sflags := SF_UNSEG; scount := seq; dlen := dl |}) by congruence.
+  subst h.
+  assert (V : sph_valid {| ver := 0; ptype := PT_TC; shf := 1; apid := apid; sflags := SF_UNSEG; scount := seq; dlen := dl |}).
+  { unfold sph_valid, PT_TC, SF_UNSEG; cbn [SpacePacket.ver ptype shf SpacePacket.apid sflags scount dlen]. lia. }
+  split; [exact V|]. split; [apply sph_pack_layout, V|apply reqid_pack_layout, V].
+Qed.
+
+Definition pfe_of (o : option (Z * Z)) : option pfe :=
+  match o with None => None | Some (w, v) => Some (mk_pfe w v) end.
+Definition fn_of (o : option (Z * Z * bytes)) : option fnotice :=
+  match o with None => None | Some (w, c, d) => Some (mk_fn w c d) end.
+
+(* create_*_tm(apid, pus_tc, ...) = Service1Tm(apid, subservice, VerificationParams(request ID of
+   pus_tc's header, ...), timestamp): the report carries exactly that telecommand's request ID *)
+Theorem srv1_create_for_tc service subservice tcapid app seq source_id ack t k apid stamp step fail :
+  tc_new service subservice tcapid app seq source_id ack = Ok t ->
+  1 <= k <= 8 -> srv1_args_valid apid k 0 0 0 0 stamp (tc_sph t) step fail ->
+  srv1_shape_ok k (has step) (has fail) ->
+  srv1_create k apid (tc_sph t) (pfe_of step) (fn_of fail) stamp =
+  Ok {| s1_tm := mk_tm 1 k apid 0 0 0 0 0 stamp (srv1_src_layout (tc_sph t) step fail) None;
+        s1_vp := mk_vp (tc_sph t) step fail |}.
+Proof.
+  intros T K A Sh. unfold srv1_create.
+  change {| vp_req := reqid_from_sph (tc_sph t); vp_step := pfe_of step; vp_fn := fn_of fail |}
+    with (mk_vp (tc_sph t) step fail).
+  apply srv1_new_spec; assumption.
+Qed.
